@@ -12,6 +12,7 @@ import JrpcVerif.Driver.MacroFamily
 import JrpcVerif.Driver.ServerFamily
 import JrpcVerif.Driver.HostFilterFamily
 import JrpcVerif.Driver.ClientFamily
+import JrpcVerif.Driver.ClientTasksFamily
 import JrpcVerif.Driver.ConnFamily
 import JrpcVerif.Driver.SubServerFamily
 open Jrpc Jrpc.Driver
@@ -23,6 +24,7 @@ structure St where
   -- one field per stateful family, e.g.  reg : RegistrySt := {}
   conn : ConnSt := {}
   client : ClientSt := {}
+  ctasks : CtSt := {}
   subs : SubSt := {}
 
 def step (st : St) (line : String) : St × String :=
@@ -47,6 +49,9 @@ def step (st : St) (line : String) : St × String :=
   | none =>
   match clientVerb st.client ws with
   | some (s', out) => ({ st with client := s' }, out)
+  | none =>
+  match ctVerb st.ctasks ws with
+  | some (s', out) => ({ st with ctasks := s' }, out)
   | none =>
   match connVerb st.conn ws with
   | some (s', out) => ({ st with conn := s' }, out)
